@@ -88,6 +88,8 @@ def run(ck):
         iters = int(rr.integers(0, 6))
         early = bool(rr.integers(0, 2)); rb = bool(rr.integers(0, 2))
         lam = float(rr.choice([1e-3, 1e-1, 1.0]))
+        if i % 7 == 5 and dtype == torch.float64:
+            lam = [1e-9, 1e-10, 1e-7][(i // 7) % 3]          # a very small requested regularisation is the requested regularisation all the same
         n = int(rr.integers(5, 11)) if i % 2 == 0 else int(rr.integers(12, 40))
         d = int(rr.integers(2, 5)); nout = int(rr.integers(1, 3))
         exponent = float(rr.choice([1.0, 1.2, 0.8]))
